@@ -330,6 +330,35 @@ func (r *Run) apply(op Op) {
 			r.crashAt = 0
 		}()
 		r.cycle++
+		r.Sched.Obs.mu.Lock()
+		r.Sched.Obs.evictCalls, r.Sched.Obs.beforeEvict = 0, nil
+		if strings.HasPrefix(op.Arg, "midevict:") {
+			// "midevict:<n>:<complete|delete>": the victim of the n-th eviction of this cycle finishes (or is deleted by its
+			// user) after the snapshot was taken and before the scheduler evicts it
+			var n int
+			var kind string
+			if _, err := fmt.Sscanf(strings.ReplaceAll(op.Arg, ":", " "), "midevict %d %s", &n, &kind); err == nil && n > 0 {
+				r.Sched.Obs.beforeEvict = func(i int, pod *corev1.Pod) {
+					if i != n {
+						return
+					}
+					cur := r.API.Pod(pod.Namespace, pod.Name)
+					if cur == nil || cur.DeletionTimestamp != nil {
+						return
+					}
+					if kind == "delete" {
+						r.API.RemovePod(cur.Namespace, cur.Name)
+					} else {
+						cur = cur.DeepCopy()
+						cur.Status.Phase = corev1.PodSucceeded
+						r.API.UpdatePod(cur)
+					}
+					r.Probe("victim_gone_between_snapshot_and_eviction")
+					synctest.Wait() // the scheduler's informers see the change before the eviction is issued
+				}
+			}
+		}
+		r.Sched.Obs.mu.Unlock()
 		r.API.mu.Lock()
 		r.API.Cycle = r.cycle
 		r.API.mu.Unlock()
